@@ -263,12 +263,14 @@ def run_stage(J, s, st, case, m, light, tag):
             r2 = "cImageD11.sparse_localmaxlabel"
             sig = (np.array(st["signal"][a:b], np.float64) / st["sigden"]).astype(np.float32)
             lab = np.full(b - a, P32I, np.int32)
-            mv = np.full(b - a, PF32, np.float32)
-            imv = np.full(b - a, P32I, np.int32)
-            ok, n = J.call(r2, m.c.sparse_localmaxlabel, sig, row, col, mv, imv, lab)
-            if ok:
-                J.eq(r2, "return (frame %d)" % i, int(n), st["nlabels"][i])
-                J.eq(r2, "labels (frame %d)" % i, lab, (elab - off[i]).astype(np.int32))
+            for fill in (PF32, 3.0e38):           # previous content of the work buffers (re-used from frame to frame)
+                lab = np.full(b - a, P32I, np.int32)
+                mv = np.full(b - a, fill, np.float32)
+                imv = np.full(b - a, P32I, np.int32)
+                ok, n = J.call(r2, m.c.sparse_localmaxlabel, sig, row, col, mv, imv, lab)
+                if ok:
+                    J.eq(r2, "return (frame %d, work buffers %g)" % (i, fill), int(n), st["nlabels"][i])
+                    J.eq(r2, "labels (frame %d, work buffers %g)" % (i, fill), lab, (elab - off[i]).astype(np.int32))
     # moments()
     if st["mom"]:
         e = st["mom"][0]
